@@ -15,4 +15,5 @@ CONSTANTS
 SPECIFICATION TraceSpec
 CHECK_DEADLOCK FALSE
 POSTCONDITION TraceAccepted
-INVARIANTS AtMostOnce AllRunAtEnd AccountingZeroAtQuiescence CountersSane NoError NoDeadlockObserved
+INVARIANTS AtMostOnce AllRunAtEnd AccountingZeroAtQuiescence CountersSane NoError NoDeadlockObserved AbsInv
+PROPERTY TraceRefines
